@@ -615,3 +615,41 @@ def dead_local_stores(ctx, rule, fis, ignore=("_",)):
                "every assigned local is used" if not dead else
                f"local(s) {dead} are assigned and never read: the computed value is lost and the original object is used instead", fi.loc(stores[dead[0]]) if dead else fi.loc())
     return n
+
+
+def zip_alignment(ctx, rule, fis, minimum=1):
+    """Names bound together by one tuple-unpacking (parallel lists: types, members, reference columns) and later iterated with zip()
+    must not be re-bound individually in between: filtering one of them shifts the pairing.  Returns zip calls checked."""
+    import ast
+    from ppsa.astutil import norm
+    n = 0
+    for fi in fis:
+        groups = []
+        for st in ast.walk(fi.node):
+            if isinstance(st, ast.Assign) and len(st.targets) == 1 and isinstance(st.targets[0], ast.Tuple) and \
+                    all(isinstance(e, ast.Name) for e in st.targets[0].elts) and len(st.targets[0].elts) >= 2 and isinstance(st.value, ast.Call):
+                groups.append(([e.id for e in st.targets[0].elts], st))
+        if not groups:
+            continue
+        for z in ast.walk(fi.node):
+            if not (isinstance(z, ast.Call) and isinstance(z.func, ast.Name) and z.func.id == "zip" and len(z.args) >= 2 and
+                    all(isinstance(a, ast.Name) for a in z.args)):
+                continue
+            names = [a.id for a in z.args]
+            for gnames, gst in groups:
+                if len(set(names) & set(gnames)) >= 2 and gst.lineno < z.lineno:
+                    n += 1
+                    rebound = []
+                    for st in ast.walk(fi.node):
+                        if isinstance(st, (ast.Assign, ast.AugAssign)) and gst.lineno < st.lineno <= z.lineno and st is not gst:
+                            tg = st.targets if isinstance(st, ast.Assign) else [st.target]
+                            for t in tg:
+                                if isinstance(t, ast.Name) and t.id in names and t.id in gnames:
+                                    rebound.append((t.id, st))
+                    ctx.ob(rule, f"{fi.module.name}::{fi.qualname}::zip({','.join(names)})", not rebound,
+                           "parallel lists iterated as they were returned" if not rebound else
+                           f"`{norm(rebound[0][1], 90)}` re-binds {rebound[0][0]} alone between the unpacking and zip({', '.join(names)}): the "
+                           "remaining entries are paired with the members of other rows", fi.loc(rebound[0][1]) if rebound else fi.loc(z))
+    if n < minimum:
+        ctx.fail(f"{rule}: only {n} zip() calls over jointly unpacked lists found (minimum {minimum})")
+    return n
